@@ -7,6 +7,7 @@ LEVEL_TEXT = ("Differential type monitoring: for generated scalar expressions ov
               "for the evaluated expression; an inferred integer must never be produced as a float or text; annotation must not "
               "change the SQL the tree generates. UNKNOWN is 'no claim' and is counted, never failed.")
 LEVEL_TEXT += (' The same columns are also reached through derived tables, CTEs and UNION / EXCEPT / INTERSECT sources whose branches have different numeric types (DuckDB DESCRIBE as reference).')
+LEVEL_TEXT += (' A deterministic family covers by-args constructs (COALESCE, CASE, IF, NULLIF, GREATEST, LEAST) mixing a string literal with each typed non-text column.')
 LEVEL_NOTE = "DuckDB 1.5.5 typeof() over a one-row table is the reference; the class table is pinned here, not read from the library"
 TECHNIQUE = "runtime monitoring: differential comparison of inferred type classes with the engine's typeof()"
 RULE = ("seeded typed expressions (arithmetic incl. division, comparisons, CASE/COALESCE/NULLIF, casts, string functions, date parts, "
@@ -343,6 +344,16 @@ def worker(ctx):
         if i % 997 == 0:
             ctx.sample({"expr": e, "engine_typeof": engine_type(e)})
     if ctx.shard == 0:
+        # by-args constructs (one result type from several operands) whose operands are a typed non-text column and a string
+        # literal in either position: the engine converts the literal to the column's type
+        shapes = ["COALESCE({c}, {l})", "COALESCE({l}, {c})", "CASE WHEN bo THEN {c} ELSE {l} END", "CASE WHEN bo THEN {l} ELSE {c} END",
+                  "NULLIF({c}, {l})", "GREATEST({c}, {l})", "LEAST({l}, {c})", "IF(bo, {l}, {c})", "COALESCE({c}, {l}, {c})",
+                  "CASE WHEN bo THEN {c} WHEN NOT bo THEN {l} END", "COALESCE(NULL, {c}, {l})"]
+        for c in NUMC + ["da", "ts"]:
+            lit = "'5'" if c in NUMC else "'2020-01-01'"
+            for sh in shapes:
+                ctx.count("byargs_string_literal_cases")
+                check(ctx, sh.format(c=c, l=lit), ["byargs-strlit", sh.split("(")[0].split(" ")[0], COLS[c].split("(")[0]])
         for key, e in PROBES:
             ctx.count("probes")
             check(ctx, e, ["probe"], sigbase=key)
